@@ -100,7 +100,7 @@ def classify(c, real, mi, mf, spec):
         if a[0] != b[0]:
             tags.add('ok-item'); break
         if a[0]:
-            if a[3] != b[3] or engine.leaf_variant(c, b[1]) != a[1]:
+            if a[3] != b[3] or engine.expected_variant(c, b) != a[1]:
                 tags.add('ok-item'); break
         else:
             if a[3] != b[3]:
@@ -177,6 +177,7 @@ def real_attempts(r):
     raw = r['raw']
     nones = 0
     for part in raw.split(';'):
+        part = re.sub(r'\{[^{}]*\}$', '', part)
         m = re.match(r'(.*)\[(.*)\]$', part)
         if not m:
             continue
